@@ -147,6 +147,12 @@ def runSchedBLate (fp : Key → Bool) (walOn : Bool) (progs : List ThreadProgram
 def coversOn (b : BSys) (ks : List Key) : Bool :=
   ks.all (fun k => !visible b.sys.store k || decide (k ∈ b.added))
 
+/-- what a reader of the filtered store sees of key `k` in a quiescent state: `get` and `exists`
+    go through the filter, the scan does not -/
+def viewB (fp : Key → Bool) (b : BSys) (k : Key) : Res × Bool × Bool :=
+  let v := view b.sys.store k
+  if mightContain fp b.added k then v else (.notFound, false, v.2.2)
+
 /-! ### (B) at the granularity of single filter / router calls -/
 
 /-- where a thread is inside a `TensorStore` method -/
